@@ -330,7 +330,7 @@ def r4_tag_gate(ctx):
 def r5_key_material(ctx):
     corpus = ctx.corpus
     fn = corpus.func('repository', 'Repository.add_key')
-    ctx.analysed(fn, corpus.func('repository', 'Repository._add_key'), corpus.func('repository', 'Repository._make_key'))
+    ctx.analysed(fn, *[corpus.func('repository', q) for q in ('Repository._add_key', 'Repository._make_key') if corpus.has_func('repository', q)])
     for shared_mode in (False, True):
         ev = Evaluator(corpus, modes={'encrypted': True, 'shared': shared_mode}, depth=6, nonnull={'password'})
         r = ev.run(fn)
